@@ -3,6 +3,8 @@ CONSTANTS
   Families = {"single", "pair", "triple"}
   BufSizes = {256, 512, 4096}
   CompCfgs <- QuickComp
+  XBufSizes = {}
+  XCompCfgs <- QuickComp
   MultiBufSizes = {256, 4096}
   MultiCompCfgs <- QuickMulti
   BigSizes = {}
